@@ -5,15 +5,15 @@ OPS = ["push_back", "resize(+2)", "reserve(8)", "shrink_to_fit", "swap", "assign
 
 def units(tier):
     q = tier == "quick"
-    ents = [Entry("vp_main_alloc_" + n, unwind=70, timeout=900, desc="aligned_allocator<%s,64>::allocate(n) for every 64-bit n: n=0 -> null, n>max_size -> length_error without a call, "
+    ents = [Entry("vp_main_alloc_" + n, unwind=6, timeout=600, desc="aligned_allocator<%s,64>::allocate(n) for every 64-bit n: n=0 -> null, n>max_size -> length_error without a call, "
                   "otherwise exactly n*sizeof(T) bytes at alignment 64, null -> bad_alloc, result aligned and usable for the full extent; deallocate" % n,
                   bounds="allocations up to 64 bytes succeed (larger ones fail in the stub), n full 64-bit") for n in ["u8", "int", "s12", "s64"]]
-    ents.append(Entry("vp_main_alignedmalloc", unwind=70, timeout=900, desc="alignedMalloc(size, align) for every power-of-two alignment 1..4096 and every size: null or aligned and usable; "
+    ents.append(Entry("vp_main_alignedmalloc", unwind=6, timeout=600, desc="alignedMalloc(size, align) for every power-of-two alignment 1..4096 and every size: null or aligned and usable; "
                       "posix_memalign's precondition always met; alignedFree", bounds="usable extent checked up to 64 bytes"))
     for n in ([0, 1, 2] if q else [0, 1, 2, 3]):
         for op in range(6):
             ents.append(Entry("vp_main_vec_n%d_op%d" % (n, op), unwind=10, timeout=900, desc="AlignedVector<int> with %d elements, then %s: data() aligned, elements preserved" % (n, OPS[op])))
-    return [CbmcUnit("aligned", "harness/C14_aligned.cpp", ents, heap_max=64, native_defines=["VP_NATIVE_BUILD"], elem_unwind=10, mem_unwind=70,
+    return [CbmcUnit("aligned", "harness/C14_aligned.cpp", ents, heap_max=64, native_defines=["VP_NATIVE_BUILD"], validate=False, elem_unwind=10, mem_unwind=20,
                      assumptions=["non-TBB back end (_mm_malloc over posix_memalign); posix_memalign by contract: null/ENOMEM or a fresh block of exactly the requested size; "
                                   "its precondition is an obligation", "TBB scalable_aligned_malloc is a closed library: contract only, not checked",
                                   "cbmc addresses: alignment is decided on the offset within the returned block (the stub returns offset 0)"],
